@@ -30,6 +30,8 @@ type ConnCase struct {
 	Cuts    []int  `json:"cuts,omitempty"`    // segment sizes, cycled; empty = one write
 	AbortAt int    `json:"abort_at"`          // -1: none; else the client closes after this many bytes
 	NoRead  bool   `json:"no_read,omitempty"` // the client never reads (and then closes)
+	PauseAt int    `json:"pause_at,omitempty"` // 1-based index of the segment after which the client pauses (0 = never)
+	PauseMS int    `json:"pause_ms,omitempty"`
 }
 
 // ProtoCase is a whole scenario.
@@ -370,10 +372,13 @@ func ExecProto(c ProtoCase, bound time.Duration) (*ProtoOutcome, error) {
 			}
 			go func() {
 				defer wwg.Done()
-				for _, s := range segs {
+				for si, s := range segs {
 					conn.SetWriteDeadline(time.Now().Add(bound))
 					if _, err := conn.Write(s); err != nil {
 						return // the service closed the connection: fine when the model says so
+					}
+					if c.Conns[k].PauseAt == si+1 && c.Conns[k].PauseMS > 0 {
+						time.Sleep(time.Duration(c.Conns[k].PauseMS) * time.Millisecond) // a pause between two segments carries no meaning
 					}
 				}
 				if abort && isUnix {
